@@ -494,6 +494,10 @@ func JSONRef(text []byte) ([]*JV, JSONStatus) {
 		}
 		return nil, JSONUnjudged
 	}
+	if len(text) >= 3 && text[0] == 0xEF && text[1] == 0xBB && text[2] == 0xBF {
+		// RFC 8259 section 8.1: a parser MAY ignore a leading byte order mark
+		return nil, JSONUnjudged
+	}
 	p := &jsonRef{s: text}
 	var out []*JV
 	p.ws()
